@@ -76,7 +76,9 @@ func c15r2(c *Ctx) {
 	for _, f := range h.handlers {
 		debits := f.CallsTo(false, h.debit)
 		hs := f.CallsTo(false, has)
-		if len(debits) == 0 || len(hs) == 0 {
+		// handlers that serve stored sector data (they call Sectors.ReadSector) must look the sector up first
+		serves := c.P.HasMethod("rhp", "Sectors", "ReadSector") && len(f.CallsTo(false, c.P.Method("rhp", "Sectors", "ReadSector"))) > 0
+		if len(debits) == 0 || (len(hs) == 0 && !serves) {
 			continue
 		}
 		g := f.Graph()
